@@ -39,6 +39,126 @@ def _callee_name(c: ast.Call) -> str:
     return c.func.id if isinstance(c.func, ast.Name) else (c.func.attr if isinstance(c.func, ast.Attribute) else "")
 
 
+class _LoadEvents:
+    """Events of the post-load validation, followed through helpers of the io modules (call depth <= 4):
+    norm = _normalize_time_period_columns, dup = validate_no_duplicates, temp = validate_temporal_columns, dwi = a COUNT(*) query.
+    The documented VTL_SKIP_LOAD_VALIDATION switch is taken out by specialising every function under `_skip_load_validation() == False`
+    (an `if [not] _skip_load_validation():` is replaced by the branch taken when validation is not skipped)."""
+    DIRECT = {"_normalize_time_period_columns": "norm", "validate_no_duplicates": "dup", "validate_temporal_columns": "temp"}
+
+    def __init__(self, P: Program) -> None:
+        self.P = P
+        self._cfg: Dict[str, CFG] = {}
+        self._kinds: Dict[str, Set[str]] = {}
+        self.skip_seen = False
+
+    def _specialise(self, fn: ast.AST) -> ast.AST:
+        import copy
+        outer = self
+        root = copy.deepcopy(fn)
+
+        class T(ast.NodeTransformer):
+            def visit_If(self, node: ast.If) -> Any:
+                self.generic_visit(node)
+                t = node.test
+                neg = isinstance(t, ast.UnaryOp) and isinstance(t.op, ast.Not)
+                core = t.operand if neg else t  # type: ignore[union-attr]
+                if isinstance(core, ast.Call) and _callee_name(core) == "_skip_load_validation":
+                    outer.skip_seen = True
+                    taken = node.body if neg else node.orelse
+                    return taken or [ast.copy_location(ast.Pass(), node)]
+                return node
+
+            def visit_FunctionDef(self, node: ast.FunctionDef) -> Any:
+                if node is not root:
+                    return node
+                self.generic_visit(node)
+                return node
+        return T().visit(root)
+
+    def cfg(self, f: Any) -> CFG:
+        if f.qualname not in self._cfg:
+            self._cfg[f.qualname] = CFG(self._specialise(f.node))
+        return self._cfg[f.qualname]
+
+    def helper(self, f: Any, c: ast.Call) -> Optional[Any]:
+        if _callee_name(c) in self.DIRECT:
+            return None
+        for q in self.P.resolve_call(f, c):
+            g = self.P.functions.get(q)
+            if g is not None and g.module.name.startswith("vtlengine.duckdb_transpiler.io") and g.cls is None:
+                return g
+        return None
+
+    def direct(self, c: ast.Call) -> Optional[str]:
+        nm = _callee_name(c)
+        if nm in self.DIRECT:
+            return self.DIRECT[nm]
+        if any("COUNT(*)" in (sqlx.skeleton_of(a) or ("", []))[0] for a in c.args):
+            return "dwi"
+        return None
+
+    def kinds(self, f: Any, depth: int = 0) -> Set[str]:
+        if f.qualname in self._kinds:
+            return self._kinds[f.qualname]
+        self._kinds[f.qualname] = set()
+        out: Set[str] = set()
+        g = self.cfg(f)
+        for n in g.nodes:
+            for c in g.calls_at(n):
+                d = self.direct(c)
+                if d:
+                    out.add(d)
+                elif depth < 4:
+                    h = self.helper(f, c)
+                    if h is not None:
+                        out |= self.kinds(h, depth + 1)
+        self._kinds[f.qualname] = out
+        return out
+
+    def _nodes_must(self, f: Any, kind: str, depth: int = 0) -> List[Any]:
+        """nodes of f whose normal completion implies that an event of `kind` happened"""
+        g = self.cfg(f)
+        out = []
+        for n in g.nodes:
+            for c in g.calls_at(n):
+                if self.direct(c) == kind:
+                    out.append(n)
+                elif depth < 4:
+                    h = self.helper(f, c)
+                    if h is not None and kind in self.kinds(h) and self.path_without(h, kind, depth + 1) is None:
+                        out.append(n)
+        return out
+
+    def path_without(self, f: Any, kind: str, depth: int = 0) -> Optional[List[str]]:
+        g = self.cfg(f)
+        must = self._nodes_must(f, kind, depth)
+        p = g.path_avoiding(g.entry, lambda n: n is g.exit, lambda n: n in must, follow_exc=False)
+        return None if p is None else describe_path(p)
+
+    def reachable_before(self, f: Any, kind: str, before: str, depth: int = 0) -> Optional[Tuple[Any, int, List[str]]]:
+        """a `kind` event that some path reaches without a completed `before` event: (function, line, path)"""
+        g = self.cfg(f)
+        done = self._nodes_must(f, before, depth)
+        for n in sorted(g.nodes, key=lambda x: x.lineno):
+            if n in done:
+                continue
+            for c in g.calls_at(n):
+                if self.direct(c) == kind:
+                    p = g.path_avoiding(g.entry, lambda x, n=n: x is n, lambda x: x in done, follow_exc=False)
+                    if p is not None:
+                        return (f, n.lineno, describe_path(p))
+                elif depth < 4:
+                    h = self.helper(f, c)
+                    if h is not None and kind in self.kinds(h):
+                        p = g.path_avoiding(g.entry, lambda x, n=n: x is n, lambda x: x in done, follow_exc=False)
+                        if p is not None:
+                            inner = self.reachable_before(h, kind, before, depth + 1)
+                            if inner is not None:
+                                return (inner[0], inner[1], describe_path(p) + ["-> " + h.qualname] + inner[2])
+        return None
+
+
 def run(rep: Report, tier: str) -> None:
     P = program()
     macros = {k.lower(): v for k, v in sqlx.load_macros(P).items()}
@@ -75,37 +195,28 @@ def run(rep: Report, tier: str) -> None:
                 rep.add(Finding("R19.1", f"R19.1/not-null/{rname}/nullable={nullable}", f.module.rel, f.node.lineno, f.qualname,
                                 f"component with role {rname}, nullable={nullable}: column is declared {'NOT NULL' if got else 'nullable'} "
                                 f"(`{sql}`); identifiers and non-nullable components must reject nulls, others must accept them"))
-    # ordering in _validate_loaded_table
+    # ordering in _validate_loaded_table (helpers of the same module are followed: see _LoadEvents)
+    ev = _LoadEvents(P)
     v = P.func(f"{IO}._validate_loaded_table")
-    g = CFG(v.node)
-    def nodes_calling(name: str):
-        return [n for n in g.nodes if any(_callee_name(c) == name for c in g.calls_at(n))]
-    norm = nodes_calling("_normalize_time_period_columns")
-    dup = nodes_calling("validate_no_duplicates")
-    temp = nodes_calling("validate_temporal_columns")
-    dwi = [n for n in g.nodes if n.kind == "stmt" and any("COUNT(*)" in (sqlx.skeleton_of(a) or ("", []))[0] for c in g.calls_at(n) for a in c.args)]
-    if not (norm and dup and temp and dwi):
-        raise AnalysisError("_validate_loaded_table: normalise / duplicate / temporal / single-row checks not all found")
-    for chk, nm in ((dup, "duplicate-key check"), (temp, "temporal format check"), (dwi, "single-datapoint check")):
+    have = ev.kinds(v)
+    if not {"norm", "dup", "temp", "dwi"} <= have:
+        raise AnalysisError(f"_validate_loaded_table: normalise / duplicate / temporal / single-row checks not all found (found {sorted(have)})")
+    for kind, nm in (("dup", "duplicate-key check"), ("temp", "temporal format check"), ("dwi", "single-datapoint check")):
         rep.instance("R19.1", f"order/normalise-before-{nm}", nontrivial=True)
-        for c in chk:
-            p = g.path_avoiding(g.entry, lambda n, c=c: n is c, lambda n: n in norm, follow_exc=False)
-            if p is not None:
-                rep.add(Finding("R19.1", f"R19.1/order/normalise-before-{nm}", v.module.rel, c.lineno, v.qualname,
-                                f"the {nm} can run before Time_Period values are normalised: the same period spelled in two accepted ways "
-                                f"(2020M1 / 2020-M01) is then compared as raw text", describe_path(p)))
-    # the documented skip: the statements INSIDE `if _skip_load_validation(): …` (the test itself lies on every path)
-    skip_ifs = [n_ for n_ in ast.walk(v.node) if isinstance(n_, ast.If) and "_skip_load_validation" in src(n_.test)]
-    skip_stmts = {id(x) for i_ in skip_ifs for b_ in i_.body for x in ast.walk(b_)}
-    skip = [n for n in g.nodes if n.stmt is not None and id(n.stmt) in skip_stmts]
-    if not skip:
-        raise AnalysisError("_validate_loaded_table: the documented VTL_SKIP_LOAD_VALIDATION early return was not found")
-    for chk, nm in ((dup, "duplicate-key check"), (temp, "temporal format check")):
+        bad = ev.reachable_before(v, kind, "norm")
+        if bad is not None:
+            fn_, line_, path_ = bad
+            rep.add(Finding("R19.1", f"R19.1/order/normalise-before-{nm}", fn_.module.rel, line_, fn_.qualname,
+                            f"the {nm} can run before Time_Period values are normalised: the same period spelled in two accepted ways "
+                            f"(2020M1 / 2020-M01) is then compared as raw text", path_))
+    for kind, nm in (("dup", "duplicate-key check"), ("temp", "temporal format check")):
         rep.instance("R19.1", f"on-every-path/{nm}", nontrivial=True)
-        p = g.path_avoiding(g.entry, lambda n: n is g.exit, lambda n: n in chk or n in skip, follow_exc=False)
+        p = ev.path_without(v, kind)
         if p is not None:
             rep.add(Finding("R19.1", f"R19.1/on-every-path/{nm}", v.module.rel, v.node.lineno, v.qualname,
-                            f"_validate_loaded_table can return without the {nm} (other than through the documented skip flag)", describe_path(p)))
+                            f"_validate_loaded_table can return without the {nm} (other than through the documented skip flag)", p))
+    if not ev.skip_seen:
+        raise AnalysisError("_validate_loaded_table: the documented VTL_SKIP_LOAD_VALIDATION switch was not found")
     # every loader reaches _validate_loaded_table on its success paths
     for ln in ("load_datapoints_duckdb", "_load_parquet", "register_dataframes"):
         lf = P.func(f"{IO}.{ln}")
@@ -250,18 +361,15 @@ def loaded_table_checks_on_every_path(P: Program, rep: Report, rule: str) -> Non
     """run()'s post-load validation (_validate_loaded_table): every normal exit has passed the duplicate-key check and the temporal
     format check, except through the documented VTL_SKIP_LOAD_VALIDATION return (shared with C20: validate_dataset performs these
     checks unconditionally, so a path of run() that skips one accepts inputs validate_dataset rejects)"""
+    ev = _LoadEvents(P)
     v = P.func(f"{IO}._validate_loaded_table")
-    g = CFG(v.node)
-    skip_ifs = [n_ for n_ in ast.walk(v.node) if isinstance(n_, ast.If) and "_skip_load_validation" in src(n_.test)]
-    skip_stmts = {id(x) for i_ in skip_ifs for b_ in i_.body for x in ast.walk(b_)}
-    skip = [n for n in g.nodes if n.stmt is not None and id(n.stmt) in skip_stmts]
-    for callee, nm in (("validate_no_duplicates", "duplicate-key check"), ("validate_temporal_columns", "temporal format check")):
-        chk = [n for n in g.nodes if any(_callee_name(c) == callee for c in g.calls_at(n))]
-        if not chk:
-            raise AnalysisError(f"_validate_loaded_table no longer calls {callee}")
+    for kind, nm in (("dup", "duplicate-key check"), ("temp", "temporal format check")):
+        if kind not in ev.kinds(v):
+            raise AnalysisError(f"_validate_loaded_table no longer reaches the {nm}")
         rep.instance(rule, f"run-side/on-every-path/{nm}", nontrivial=True)
-        p = g.path_avoiding(g.entry, lambda n: n is g.exit, lambda n, chk=chk: n in chk or n in skip, follow_exc=False)
+        p = ev.path_without(v, kind)
         if p is not None:
             rep.add(Finding(rule, f"{rule}/run-side/on-every-path/{nm}", v.module.rel, v.node.lineno, v.qualname,
                             f"run(): _validate_loaded_table can return without the {nm} (other than through the documented skip flag), while validate_dataset always performs it: "
-                            f"the two disagree on such inputs", describe_path(p)))
+                            f"the two disagree on such inputs", p))
+
